@@ -16,6 +16,7 @@
 //	qpack <field>…                      => ok | MISMATCH …
 //	reqwrite lim= m= url= proto= host= cl= body= gz= T= H= => new=E | x=<uri>,<scheme>,<uhost>,<puny|!> | w=ok <field>…|E:<class> | p=<req result>
 //	trlwrite lim= T=<hdrs>              => w=none|ok <field>…|E:… | p=<trl result>
+//	resphdr lim= st= H=<hdrs>           => w=ok <field>… | p=<rsp result>          (responseWriter.writeHeader alone)
 //	respwrite lim= st= pre= body= post= => w=<frames> | p=<rsp result> | t=<trl result>
 //
 // <hdrs> = key:v,v;key:v… sorted by key (Go map order never leaks), '-' when empty.
@@ -354,6 +355,15 @@ func (rn *runner) Exec(op string) string {
 			return "w=none | p=-"
 		}
 		return "w=ok " + fmtFields(fs) + " | p=" + resTrl(fs, false, lim)
+	case "resphdr":
+		a := opArgs(f[1:])
+		lim, _ := strconv.Atoi(a["lim"])
+		st, _ := strconv.Atoi(a["st"])
+		fs, err := http3.VerifWriteResponseHeader(st, parseHdrs(a["H"]))
+		if err != nil {
+			return "w=E:" + hx(err.Error()) + " | p=-"
+		}
+		return "w=ok " + fmtFields(fs) + " | p=" + resRsp(fs, false, lim)
 	case "respwrite":
 		a := opArgs(f[1:])
 		lim, _ := strconv.Atoi(a["lim"])
@@ -824,7 +834,7 @@ func (rn *runner) GenOp(r *vh.Rand, i int) string {
 			return strings.TrimSpace(fmt.Sprintf("hdr %s %d q0 %s", kind, lim, fmtFields(fs)))
 		}
 	}
-	switch r.Pick(22, 18, 12, 12, 10, 3, 12, 5, 6) {
+	switch r.Pick(22, 18, 12, 12, 10, 3, 12, 5, 6, 7) {
 	case 0: // parseHeaders, request or response side, structured
 		kind := "req"
 		if r.Chance(40) {
@@ -919,6 +929,17 @@ func (rn *runner) GenOp(r *vh.Rand, i int) string {
 			h[k] = vs
 		}
 		return fmt.Sprintf("trlwrite lim=100000 T=%s", fmtHdrsOp(keys, h))
+	case 9: // responseWriter.writeHeader alone
+		st := []int{200, 204, 404, 500, 100, 103, 301, 999, 0, 1000, -1, 1234567}[r.Intn(12)]
+		keys, h := genHeaderMap(r, r.Intn(6), 3, 6)
+		if r.Chance(20) {
+			k := pick(r, []string{"Trailer:X-U", "Trailer:Etag", "trailer", "X-T", "Etag"})
+			if _, dup := h[k]; !dup {
+				keys = append(keys, k)
+				h[k] = []string{randBytes(r, 1+r.Intn(5), false)}
+			}
+		}
+		return fmt.Sprintf("resphdr lim=100000 st=%d H=%s", st, fmtHdrsOp(keys, h))
 	default: // response writer
 		st := []int{200, 204, 404, 500, 100, 103, 301}[r.Intn(7)]
 		keys, h := genHeaderMap(r, r.Intn(6), 3, 6)
